@@ -324,6 +324,9 @@ def c09_jobs(tier):
         wk("nucleo-race-miri", "race", "miri", 4 if q else 16, 1 if q else 8, 300 if q else 3000, extra=["--items", "40", "--injectors", "2", "--pool", "2"], sanitizer=True,
            miriflags=MIRI_TB + " -Zmiri-preemption-rate=0.03", timeout=900 if q else 5000),
         wk("nucleo-race-tsan", "race", "tsan", 5, 8 if q else 200, 40 if q else 900, extra=["--items", "3000", "--injectors", "4", "--pool", "8"], sanitizer=True, env=TSAN_ENV),
+        # the directed schedules (writers parked inside their fill callback across scans, cancellations and rescoring runs) with the race detector watching:
+        # what the stress workload meets by chance is forced here
+        wk("nucleo-directed-tsan", "directed", "tsan", 3, 1000000, 30 if q else 600, props="C09", sanitizer=True, env=TSAN_ENV),
     ]
 
 
@@ -489,6 +492,7 @@ PROPS["C10"]["jobs"] = c10_jobs_full
 PROPS["C10"]["rule"] += ("; plus a size grid (1x1 ... 70000x4, cells around 100 KiB, needle around 2048, haystack around 65535) through all 12 entry points under Miri "
                          "(Stacked Borrows: a reference that extends past its allocation is reported when it is formed) and AddressSanitizer")
 PROPS["C10"]["require"]["any"]["grid.shapes-run"] = 10
+PROPS["C10"]["require"]["any"]["c10.accepted-after-a-rejected-window"] = 100
 
 _c15_base = PROPS["C15"]["jobs"]
 _c15_replay = PROPS["C15"]["replay"]
